@@ -12,6 +12,7 @@ import (
 
 	"github.com/microsoft/yardl/tooling/internal/formatting"
 	"github.com/microsoft/yardl/tooling/internal/iocommon"
+	"github.com/microsoft/yardl/tooling/internal/verifhook"
 	"github.com/microsoft/yardl/tooling/pkg/dsl"
 	"github.com/rs/zerolog/log"
 )
@@ -270,6 +271,7 @@ func (fw *MatlabFileWriter) RemoveStaleFiles() error {
 	}
 	for _, name := range stalePaths {
 		log.Debug().Msgf("Removing stale file %s", name)
+		verifhook.Event("file.remove", "path", name)
 		if err := os.Remove(name); err != nil {
 			return err
 		}
